@@ -783,6 +783,7 @@ fn check_seq(case: &SeqCase, ctx: &mut Ctx) -> Result<(), Fail> {
 pub fn property() -> Property {
     Property {
         id: "C03",
+        quick_mult: 80,
         rule: "cases = (operation, operands, element type) drawn by proptest from shape classes {general,1xN,Nx1,1x1} x value classes {mixed,all-negative,all-equal,integers,large,offset} x compatible/incompatible pairings; non-trivial = both dimensions >= 2 and the matrix is not square-symmetric (matop/ctor/scale), vector length >= 2 (vecop), >= 3 values along the axis with |mean| >= 100*spread (var_std), non-constant input (softmax), >= 3 applied steps (op_sequences); distinct = distinct serialised case",
         assumptions: vec![
             "DenseMatrix::dot with exactly one vector operand of equal element count (e.g. 2x3 . 1x6) is not decided by the property text and is not asserted".into(),
